@@ -441,7 +441,7 @@ pub fn run(ctx: &mut LaneCtx) {
     ctx.run_sub(
         SubSpec {
             name: "killed-mid-dump",
-            cases: (320, 20_000),
+            cases: (480, 20_000),
             rule: "targets with 1..10 parked/sleeper/spinner threads that are SIGKILLed at a generated point of the dump (threads enumerated / before or after the attach of a chosen thread / all threads suspended / k-th destination call), with and without the group stop and a crash context; oracle = the request fails, or its thread list names only threads of the target, each once, each with a valid context, and every omitted thread is named by a soft error; non-trivial = the kill point was reached; distinct = hash of case",
             strategy: (
                 proptest::collection::vec(prop_oneof![3 => Just(crate::vcore::target::K_PARKED), 2 => Just(crate::vcore::target::K_SLEEPER), 1 => Just(crate::vcore::target::K_SPINNER)], 1..11),
